@@ -63,11 +63,14 @@ impl H {
 	}
 }
 
-fn tween(d: u64) -> Tween {
+/// the k-th tween of a session uses the k-th easing of this cycle (the life cycle and the shape clauses - monotone,
+/// exact silence / unity at the end - hold for every built-in easing)
+fn tween_k(d: u64, k: usize) -> Tween {
+	use kira::Easing::*;
 	Tween {
 		start_time: StartTime::Immediate,
 		duration: chunks(d),
-		easing: kira::Easing::Linear,
+		easing: [Linear, InOutPowi(3), InPowi(2), OutPowi(3), InOutPowf(1.5)][k % 5],
 	}
 }
 
@@ -79,7 +82,15 @@ fn run_scenario(sc: &Value, t: &mut Tracer) {
 	let starved = kind == "starved";
 	t.reset(json!({"kind": kind, "finite": finite, "len": len, "n": NF, "starved": starved, "src": sc["src"]}));
 	let mut held: Option<std::sync::Arc<DecStats>> = None;
-	let mut sim = Sim::basic();
+	let mut ntw = sc["e0"].as_u64().unwrap_or(0) as usize;
+	// a small frame ring (streams only): the decoder is never more than `ring` frames ahead, so a decoder thread that
+	// gives up too early is heard as silence within a few callbacks (0: the production size)
+	let ring = if kind == "stream" { sc["ring"].as_u64().unwrap_or(0) as usize } else { 0 };
+	kira::verif::set_stream_ring_capacity(ring);
+	let mut refill: Option<std::sync::Arc<DecStats>> = None;
+	// the output is observed through a tap on the main track, before the renderer's clamp: a gain above unity is visible
+	let tap: std::sync::Arc<std::sync::Mutex<Vec<f32>>> = Default::default();
+	let mut sim = Sim::new(kira::Capacities::default(), kira::track::MainTrackBuilder::new().with_built_effect(Box::new(Tap(tap.clone()))), NF, RATE);
 	// a clock ticking once per chunk, and the id of a clock that no longer exists
 	let mut clock = sim.manager.add_clock(ClockSpeed::TicksPerSecond(2.0)).unwrap();
 	clock.start();
@@ -102,6 +113,7 @@ fn run_scenario(sc: &Value, t: &mut Tracer) {
 			};
 			H::Static(sim.manager.play(data).unwrap())
 		} else {
+			DEC_WAITS.store(0, std::sync::atomic::Ordering::SeqCst);
 			let (dec, stats) = ScriptDecoder::new(len, vec![3, 1, 2], 0, 0);
 			// a starved stream: the decoder delivers `after` frames and then hangs in decode() until the session is over
 			let dec = if starved { dec.with_block_after(sc["after"].as_u64().unwrap_or(0) as usize) } else { dec };
@@ -117,6 +129,12 @@ fn run_scenario(sc: &Value, t: &mut Tracer) {
 					std::thread::sleep(Duration::from_micros(200));
 				}
 				held = Some(stats.clone());
+			} else if ring > 0 {
+				let t0 = std::time::Instant::now();
+				while DEC_WAITS.load(std::sync::atomic::Ordering::SeqCst) < 1 && !stats.dropped.load(std::sync::atomic::Ordering::SeqCst) && t0.elapsed() < Duration::from_secs(5) {
+					std::thread::sleep(Duration::from_micros(200));
+				}
+				refill = Some(stats.clone());
 			} else if finite {
 				// a finite stream is decoded completely, after which the decoder thread ends
 				let t0 = std::time::Instant::now();
@@ -144,9 +162,9 @@ fn run_scenario(sc: &Value, t: &mut Tracer) {
 				let wk = step["wk"].as_str().unwrap_or("none");
 				let wt = step["wt"].as_u64().unwrap_or(0);
 				let r = guarded(|| match c {
-					"pause" => h.pause(tween(d)),
-					"resume" => h.resume(tween(d)),
-					"stop" => h.stop(tween(d)),
+					"pause" => h.pause(tween_k(d, { ntw += 1; ntw })),
+					"resume" => h.resume(tween_k(d, { ntw += 1; ntw })),
+					"stop" => h.stop(tween_k(d, { ntw += 1; ntw })),
 					"resume_at" => {
 						let st = match wk {
 							"delayed" => StartTime::Delayed(chunks(wt)),
@@ -162,7 +180,7 @@ fn run_scenario(sc: &Value, t: &mut Tracer) {
 								fraction: 0.0,
 							}),
 						};
-						h.resume_at(st, tween(d))
+						h.resume_at(st, tween_k(d, { ntw += 1; ntw }))
 					}
 					_ => {}
 				});
@@ -173,7 +191,25 @@ fn run_scenario(sc: &Value, t: &mut Tracer) {
 				t.ev(json!({"a": "cmd", "c": c, "d": d, "wk": wk, "wt": wt}));
 			}
 			"Callback" => {
-				let res = sim.callback(NF);
+				tap.lock().unwrap().clear();
+				let mut res = sim.callback(NF);
+				{
+					let tp = tap.lock().unwrap();
+					if tp.len() == res.out.len() {
+						res.out = tp.clone();
+					}
+				}
+				if let Some(stats) = refill.as_ref() {
+					// the decoder refills the small ring before the next callback (reports it full again), or has ended
+					let w = DEC_WAITS.load(std::sync::atomic::Ordering::SeqCst);
+					let t1 = std::time::Instant::now();
+					while DEC_WAITS.load(std::sync::atomic::Ordering::SeqCst) <= w + 1
+						&& !stats.dropped.load(std::sync::atomic::Ordering::SeqCst)
+						&& t1.elapsed() < Duration::from_millis(1500)
+					{
+						std::thread::sleep(Duration::from_micros(100));
+					}
+				}
 				let hd = hear(&res.out);
 				let st = guarded(|| (h.state(), h.position()));
 				let (state, pos) = match st {
